@@ -17,7 +17,7 @@ mod run;
 
 pub const OP_NAMES: &[&str] = &[
     "TickClient", "TickServer", "Deliver", "Drop", "DeliverAll", "Submit", "Broadcast", "Recv", "Disconnect", "NewClient", "Mutate", "Replay",
-    "SockErr", "CrashClient", "Rejoin", "SpoofPort",
+    "SockErr", "CrashClient", "Rejoin", "SpoofPort", "SetMaxClients",
 ];
 pub const K_TICKCLIENT: u8 = 0;
 pub const K_TICKSERVER: u8 = 1;
@@ -35,6 +35,7 @@ pub const K_SOCKERR: u8 = 12;
 pub const K_CRASH: u8 = 13;
 pub const K_REJOIN: u8 = 14;
 pub const K_SPOOFPORT: u8 = 15;
+pub const K_SETMAX: u8 = 16;
 
 pub const T0_SECS: u64 = 500;
 
@@ -363,6 +364,7 @@ pub fn gen_cfg(family: &str, rng: &mut Rng) -> Cfg {
     cfg.set("local", *rng.pick(&[0u64, 0, 1]));
     cfg.set("unsecure", *rng.pick(&[0u64, 0, 0, 1]));
     cfg.set("spoof", *rng.pick(&[0u64, 0, 0, 0, 1]));
+    cfg.set("setmax", *rng.pick(&[0u64, 0, 1]));
     let _ = BTreeSet::<u8>::new();
     cfg
 }
